@@ -36,7 +36,7 @@ func init() {
 		Assumptions:  []string{"process death, not power loss: a completed write(2) survives"},
 	}, runC08)
 	register("C07", propMeta{
-		Explanation:  "Decides undo coverage and lock release on every error exit: (R1) the table step -> {log site in phase1Commit/NewBtree, guarded undo block in the live rollback, guarded undo block in the dead-transaction log replay} is extracted from the code and must be complete for every step with a persistent effect, each undo calling the matching undo function; (R2) the live-rollback guard of a step whose action performs two persistent effects must also cover the state in which only the first effect happened; (R3) rollback releases node-key locks on every path and item locks once they may have been taken; a failed node-key Lock/DualLock attempt in phase1Commit is followed by Unlock before sleeping or retrying; (R4) log removal is on every terminal path.",
+		Explanation:  "Decides undo coverage and lock release on every error exit: (R1) the table step -> {log site in phase1Commit/NewBtree, guarded undo block in the live rollback, guarded undo block in the dead-transaction log replay} is extracted from the code and must be complete for every step with a persistent effect, each undo calling the matching undo function; (R2) the live-rollback guard of a step whose action performs two persistent effects must also cover the state in which only the first effect happened; (R3) rollback releases node-key locks on every path and item locks once they may have been taken; a failed node-key Lock/DualLock attempt in phase1Commit is followed by Unlock before sleeping or retrying; (R4) log removal is on every terminal path; (R6) the undos that clear whatever reservation / deletion mark / root the registry holds run only under a strict `>` guard whose truth implies the step succeeded for this transaction.",
 		DoesNotCover: "That the undo functions restore byte-identical state is not decided (C10 decides which ids they may delete); fault schedules are not executed.",
 	}, runC07)
 }
@@ -469,6 +469,8 @@ func runC07(c *Ctx) {
 	r5 := c.Rule("R5", "a Phase2Commit failure can only be undone if the priority log holds handle PRE-images: it is written before the in-place flip (shared with C08.R2)", 5)
 	r4 := c.Rule("R4", "transaction logs are removed on every terminal path: rollback -> removeLogs, cleanup -> removeLogs, log replay -> TransactionLog.Remove", 3)
 	commitUndoRules(c, r1, r2, r3, r5, r4)
+	r6 := c.Rule("R6", "undo functions that cannot tell this transaction's state from a competitor's run only in a state that implies the step succeeded for this transaction (shared with C37.R4)", 6)
+	foreignBlindUndoRule(c, r6)
 }
 
 // commitUndoRules: the undo-table rules shared by C07 (all sections) and C11 (undo table, partial
